@@ -337,6 +337,8 @@ class Flattener(object):
         self.inlined.append(name)
         # nested helper calls inside the inlined statements
         holder = mk(self.tu, "CompoundStmt", out, like=like or call)
+        # array initialisers of the helper's own locals that use its parameters: read like the in-line stores they replace
+        lower_array_initialisers(self.tu, holder)
         self.block(holder, stack + [name])
         return holder.children
 
@@ -428,6 +430,23 @@ class Flattener(object):
             elif self.call_of(r) is not None and l.intval() is not None:
                 call, cmp_ = self.call_of(r), (e.opcode, l.intval(), True)
         if call is None:
+            # `if (A && helper(..)) S;` without an else is `if (A) { if (helper(..)) S; }`: split so that the inner test is in a
+            # position handled above (C evaluates helper(..) only when A holds, as the nested form does)
+            if not neg and e.kind == "BinaryOperator" and e.opcode == "&&" and len(s.children) == 2 \
+                    and any(self.call_of(x) is not None for x in e.children[1].walk() if x.kind == "CallExpr") \
+                    and not any(self.call_of(x) is not None for x in e.children[0].walk() if x.kind == "CallExpr"):
+                a_, b_ = e.children
+                inner = mk(self.tu, "IfStmt", [b_, s.children[1]], like=s)
+                body = mk(self.tu, "CompoundStmt", [inner], like=s)
+                outer = mk(self.tu, "IfStmt", [a_, body], like=s)
+                self.block(body, stack)
+                if len(body.children) == 1 and body.children[0] is inner:
+                    # the inner call was not inlined after all: keep the statement as it was
+                    s.children = [cond, inner.children[1]]
+                    for c_ in s.children:
+                        c_.parent = s
+                    return None
+                return [outer]
             return None
         import operator
         ops = {"==": operator.eq, "!=": operator.ne, "<": operator.lt, ">": operator.gt, "<=": operator.le, ">=": operator.ge}
@@ -801,6 +820,49 @@ def _canonical_param_rename(fn):
     if set(ren.values()) & others:
         return {}
     return ren
+
+
+def lower_array_initialisers(tu, root):
+    """`T a[n] = {e0, e1};` in a block becomes `T a[n]; a[0] = e0; a[1] = e1;` when an element is not a constant: a helper that
+    takes the sizes as parameters and puts them into its own array by the initialiser is read like the in-line code that assigns
+    them (rules look for the stores `a[i] = ...`).  Constant initialisers stay as they are."""
+    n_low = 0
+    for comp in [x for x in root.walk() if x.kind == "CompoundStmt"]:
+        i = 0
+        while i < len(comp.children):
+            st = comp.children[i]
+            new = []
+            if st.kind == "DeclStmt":
+                for vd in st.children:
+                    if vd.kind != "VarDecl" or not vd.children or "[" not in (vd.type or ""):
+                        continue
+                    init = vd.children[-1]
+                    if init.kind != "InitListExpr" or not init.children or len(init.children) > 4:
+                        continue
+                    elems = list(init.children)
+                    if not any(x.kind in ("DeclRefExpr", "MemberExpr") and not (x.kind == "DeclRefExpr" and (x.d.get("referencedDecl") or {}).get("kind") == "EnumConstantDecl")
+                               for e in elems for x in e.walk()):
+                        continue        # constants (literals, macros, enumerators) only
+                    if any(e.kind in ("ImplicitValueInitExpr", "InitListExpr") for e in elems):
+                        continue
+                    et = (vd.type or "").split("[")[0].strip()
+                    vd.children = vd.children[:-1]
+                    for k, e in enumerate(elems):
+                        if not any(x.kind in ("DeclRefExpr", "MemberExpr") for x in e.walk()):
+                            continue        # a constant element: its initial value is nothing a rule looks for
+                        ref = mk(tu, "DeclRefExpr", text=vd.name, like=vd, type={"qualType": vd.type},
+                                 referencedDecl={"kind": "VarDecl", "name": vd.name})
+                        lit = mk(tu, "IntegerLiteral", text=str(k), value=str(k), type={"qualType": "int"})
+                        sub = mk(tu, "ArraySubscriptExpr", [ref, lit], text="%s[%d]" % (vd.name, k), like=vd, type={"qualType": et})
+                        new.append(mk(tu, "BinaryOperator", [sub, e], like=e, opcode="=", type={"qualType": et}))
+                    n_low += 1
+            if new:
+                for nn in new:
+                    nn.parent = comp
+                comp.children[i + 1:i + 1] = new
+                i += len(new)
+            i += 1
+    return n_low
 
 
 def flatten(tu, fn):
